@@ -290,16 +290,20 @@ def plot_cases(prog, rep, fails):
                         if xarr == "subset" and len(dims) < 2:
                             continue
                         one_plot_case(prog, rep, fails, rid, cls_name, dims, roles, by, xarr, chart)
+                        if chart == "line" and xarr is None and by == "letter" and roles.get("intra_line_dim") == "t" and len(dims) <= 2:
+                            one_plot_case(prog, rep, fails, rid, cls_name, dims, roles, by, xarr, chart, numeric_text=True)
                         if cls_name == "PlotlyArrayPlotter" and "subplot_dim" in roles and chart == "line" and xarr is None and by == "letter":
                             # a figure laid out by the caller (one row / one column of cells) handed in through fig=
                             for given in ("row", "column"):
                                 one_plot_case(prog, rep, fails, rid, cls_name, dims, roles, by, xarr, chart, given_fig=given)
 
 
-def one_plot_case(prog, rep, fails, rid, cls_name, dims, roles, by, xarr, chart, given_fig=None):
+def one_plot_case(prog, rep, fails, rid, cls_name, dims, roles, by, xarr, chart, given_fig=None, numeric_text=False):
     if not take():
         return
     w = World(prog, "concrete")
+    if numeric_text:
+        w.numeric_text_letters = {"t"}      # the time items are TEXT that reads like numbers ("2020", ...): the x-data are these labels
     it = w.it
     log = []
     install_plot_models(it, log)
@@ -320,6 +324,8 @@ def one_plot_case(prog, rep, fails, rid, cls_name, dims, roles, by, xarr, chart,
     inp = {"plotter": cls_name, "array_dims": list(dims), **{k: v for k, v in kw.items() if isinstance(v, str)}, "x_array": xarr}
     if given_fig:
         inp["fig"] = f"make_subplots with one {given_fig} of {n_sub} cells, passed as fig="
+    if numeric_text:
+        inp["time_items"] = "text that reads like numbers ('2020', '2021', ...)"
     kind, pl = run_guarded(lambda: it.construct(prog.cls(cls_name), [], kw))
     rep.evaluations += 1
     if kind != "ok":
@@ -345,7 +351,7 @@ def one_plot_case(prog, rep, fails, rid, cls_name, dims, roles, by, xarr, chart,
                     m[vkey(w.items(roles["linecolor_dim"]))] = ("c", li)
                 yt = NP.subst(Y, m) if m else Y
                 if xa is None:
-                    xt = ("in", "items", (("t" if il == "t" else il, ("v", vkey(w.items(il)))),))
+                    xt = ("in", "items", ((NP.universe(w.items(il)[0]), ("v", vkey(w.items(il)))),))
                 else:
                     xd = w.letters(xa.f["dims"])
                     Xt = t_in("x", [tuple(w.items(l)) for l in xd])
